@@ -165,19 +165,24 @@ def run_one(chk, sseed, cls):
         w.destroy()
 
 
-def never_succeeded_one(chk, sseed):
+def never_succeeded_one(chk, sseed, forced=False):
     """two repositories, one of which fails persistently from its very first run on (it has never been published and never
     got a clean script), over two runs, with automatic cleaning or clean scripts, sequentially or concurrently: the run exits
     non-zero, the healthy repository is published every time, the failing one never is"""
     rng = random.Random(sseed)
     auto = rng.random() < 0.3
-    w = common.World(rng, 2, settings={"_autoclean": "1" if auto else "0", "nthreads": rng.choice(["1", "1", "4"])})
+    nthreads = rng.choice(["1", "1", "4"])
+    if forced:
+        auto, nthreads = False, "1"
+    w = common.World(rng, 2, settings={"_autoclean": "1" if auto else "0", "nthreads": nthreads})
     try:
         bad = 0 if rng.random() < 0.6 else 1
         late = rng.random() < 0.75   # the failure shows at the end of the failing repository's run (a pool file), not at its start
+        if forced:   # corpus: clean scripts, one repository at a time, the one configured first fails at its pool stage
+            bad, late = 0, True
         urls = [r["url"] for r in w.repos]
         versions = [w.repos, [common.evolve(rng, r) for r in w.repos]]
-        replay = {"scenario_seed": sseed, "never_succeeded": True, "lines": w.lines, "settings": w.settings, "failing": urls[bad]}
+        replay = {"scenario_seed": sseed, "never_succeeded": True, "forced": forced, "lines": w.lines, "settings": w.settings, "failing": urls[bad]}
         for step, vs in enumerate(versions):
             vs = list(vs)
             vs[bad] = versions[0][bad]
@@ -222,7 +227,7 @@ def never_succeeded_one(chk, sseed):
 
 def run(chk, tier, rng):
     for i in range(8 if tier == "quick" else 150):
-        never_succeeded_one(chk, f"C02n-{chk.seed}-{i}")
+        never_succeeded_one(chk, f"C02n-{chk.seed}-{i}", forced=(i < 3))
     n = 120 if tier == "quick" else 2400
     for i in range(n):
         run_one(chk, f"C02-{chk.seed}-{i}", CLASSES[i % len(CLASSES)])
@@ -237,7 +242,7 @@ def replay(rep):
     chk.known = []
     r = rep["replay"]
     if r.get("never_succeeded"):
-        never_succeeded_one(chk, r["scenario_seed"])
+        never_succeeded_one(chk, r["scenario_seed"], r.get("forced", False))
     else:
         run_one(chk, r["scenario_seed"], r["class"])
     for sig, path, msg, _ in chk.violations:
